@@ -241,6 +241,27 @@ func ruleR082(c *Ctx) {
 			c.Violation(key, fd.Pos(), "%s does not iterate the list's producer lazily any more (no range over the producer): it has to materialise the whole list to decide", name)
 			continue
 		}
+		// a consumer that stops at the decisive element must not pull the whole list first: no call of a consuming
+		// method (Eval, ToSlice, Size, ... - the derived set of R08.1) in front of or next to the loop
+		if bad := func() string {
+			res := ""
+			inspectNoLit(fd.Body, func(n ast.Node) bool {
+				call, ok := n.(*ast.CallExpr)
+				if !ok || res != "" {
+					return true
+				}
+				if cal := Callee(info, call); cal != nil && la.consuming[cal] {
+					if self, _ := info.Defs[fd.Name].(*types.Func); self == nil || cal != self.Origin() {
+						res = cal.Name()
+					}
+				}
+				return true
+			})
+			return res
+		}(); bad != "" {
+			c.Violation(key, fd.Pos(), "%s stops at the decisive element, but it calls %s, which pulls the whole list: every element of a lazy operand is evaluated (and the first error anywhere in it reported) before the search looks at the first one", name, bad)
+			continue
+		}
 		ok := false
 		for _, rs := range loops {
 			// the error variable of the loop
